@@ -71,6 +71,7 @@ Proof.
 Qed.
 
 (* ---- scripts: popping ---- *)
+Definition is_pubsub (a : acall) : bool := match a with APublish0 | ASubscribe => true | _ => false end.
 Definition script_noreconn (sc : list acall) : bool := negb (existsb is_reconnect sc).
 Definition queue_noreconn (q : list (list acall)) : bool := forallb script_noreconn q.
 Definition scr_noreconn (q : scripts) : bool :=
@@ -119,4 +120,127 @@ Proof.
   repeat (apply existsb_app_false in H as [?%queue_noreconn_of H]).
   apply queue_noreconn_of in H.
   repeat (apply andb_true_iff; split); assumption.
+Qed.
+
+(* ---- a nested script run while no socket is held and without reconnect(): it can only record its
+   calls and (disconnect()) change the state ---- *)
+Definition tev (e : event) : bool := match e with Call _ | Fuel => true | _ => false end.
+Definition tev_ps (e : event) : bool :=
+  match e with Call CPublish | Call CSubscribe | Fuel => true | _ => false end.
+
+Record same_core (s s' : st) : Prop := mkCore {
+  co_sock : sock s' = sock s; co_regw : regw s' = regw s; co_outq : outq s' = outq s;
+  co_scr : scr s' = scr s; co_nsock : nsock s' = nsock s; co_proto : proto s' = proto s;
+  co_ping : ping s' = ping s; co_incb : incb s' = incb s; co_sched : sched s' = sched s }.
+
+Definition teardown_rel (s s' : st) : Prop :=
+  same_core s s' /\ (cs s' = cs s \/ cs s' = CsDisconnected) /\
+  exists evs, tr s' = evs ++ tr s /\ Forall (fun e => tev e = true) evs.
+Definition teardown_rel_ps (s s' : st) : Prop :=
+  same_core s s' /\ cs s' = cs s /\
+  exists evs, tr s' = evs ++ tr s /\ Forall (fun e => tev_ps e = true) evs.
+
+Lemma same_core_refl s : same_core s s.
+Proof. constructor; reflexivity. Qed.
+Lemma same_core_trans s1 s2 s3 : same_core s1 s2 -> same_core s2 s3 -> same_core s1 s3.
+Proof. intros [] []. constructor; congruence. Qed.
+
+Lemma teardown_rel_refl s : teardown_rel s s.
+Proof. split; [apply same_core_refl|]. split; [left; reflexivity|]. exists []. split; [reflexivity|constructor]. Qed.
+Lemma teardown_rel_ps_refl s : teardown_rel_ps s s.
+Proof. split; [apply same_core_refl|]. split; [reflexivity|]. exists []. split; [reflexivity|constructor]. Qed.
+
+Lemma teardown_rel_trans s1 s2 s3 : teardown_rel s1 s2 -> teardown_rel s2 s3 -> teardown_rel s1 s3.
+Proof.
+  intros (A & B & evs1 & C1 & C2) (A' & B' & evs2 & D1 & D2).
+  split; [eapply same_core_trans; eassumption|]. split.
+  - destruct B' as [B'|B']; [rewrite B'; exact B | right; exact B'].
+  - exists (evs2 ++ evs1). split; [rewrite D1, C1, app_assoc; reflexivity|]. apply Forall_app; split; assumption.
+Qed.
+Lemma teardown_rel_ps_trans s1 s2 s3 : teardown_rel_ps s1 s2 -> teardown_rel_ps s2 s3 -> teardown_rel_ps s1 s3.
+Proof.
+  intros (A & B & evs1 & C1 & C2) (A' & B' & evs2 & D1 & D2).
+  split; [eapply same_core_trans; eassumption|]. split; [congruence|].
+  exists (evs2 ++ evs1). split; [rewrite D1, C1, app_assoc; reflexivity|]. apply Forall_app; split; assumption.
+Qed.
+
+Lemma teardown_rel_ps_weaken s s' : teardown_rel_ps s s' -> teardown_rel s s'.
+Proof.
+  intros (A & B & evs & C1 & C2). split; [exact A|]. split; [left; exact B|]. exists evs. split; [exact C1|].
+  eapply Forall_impl; [|exact C2]. intros e. destruct e as [| | | | | | | | | |x| | | | |]; cbn; try discriminate; try reflexivity.
+Qed.
+
+Section Teardown.
+Variable c : cfg.
+Variable nested : list acall -> st -> st.
+
+Lemma api_nested_teardown a s : is_reconnect a = false -> sock s = None ->
+  teardown_rel s (api_nested c nested a s).
+Proof.
+  intros Ha Hs. destruct a; try discriminate Ha; cbn [api_nested].
+  - unfold api_send. ssimpl. rewrite Hs. cbn [fst].
+    split; [constructor; reflexivity|]. split; [left; reflexivity|]. exists [Call CPublish]. split; [reflexivity|repeat constructor].
+  - unfold api_send. ssimpl. rewrite Hs. cbn [fst].
+    split; [constructor; reflexivity|]. split; [left; reflexivity|]. exists [Call CSubscribe]. split; [reflexivity|repeat constructor].
+  - unfold api_disconnect. ssimpl. rewrite Hs. cbn [fst].
+    split; [constructor; reflexivity|]. split; [right; reflexivity|]. exists [Call CDisconnect]. split; [reflexivity|repeat constructor].
+Qed.
+
+Lemma api_nested_teardown_ps a s : is_pubsub a = true -> sock s = None ->
+  teardown_rel_ps s (api_nested c nested a s).
+Proof.
+  intros Ha Hs. destruct a; try discriminate Ha; cbn [api_nested].
+  - unfold api_send. ssimpl. rewrite Hs. cbn [fst].
+    split; [constructor; reflexivity|]. split; [reflexivity|]. exists [Call CPublish]. split; [reflexivity|repeat constructor].
+  - unfold api_send. ssimpl. rewrite Hs. cbn [fst].
+    split; [constructor; reflexivity|]. split; [reflexivity|]. exists [Call CSubscribe]. split; [reflexivity|repeat constructor].
+Qed.
+
+Lemma exec_teardown : forall sc s, script_noreconn sc = true -> sock s = None ->
+  teardown_rel s (exec_script c nested sc s).
+Proof.
+  unfold script_noreconn. induction sc as [|a sc IH]; intros s H Hs; cbn [exec_script fold_left].
+  - apply teardown_rel_refl.
+  - cbn [existsb] in H. apply negb_true_iff in H. apply orb_false_iff in H as [H1 H2].
+    pose proof (api_nested_teardown a s H1 Hs) as R1.
+    eapply teardown_rel_trans; [exact R1|]. apply IH.
+    + rewrite H2. reflexivity.
+    + destruct R1 as ([] & _). congruence.
+Qed.
+
+Lemma exec_teardown_ps : forall sc s, forallb is_pubsub sc = true -> sock s = None ->
+  teardown_rel_ps s (exec_script c nested sc s).
+Proof.
+  induction sc as [|a sc IH]; intros s H Hs; cbn [exec_script fold_left].
+  - apply teardown_rel_ps_refl.
+  - cbn [forallb] in H. apply andb_true_iff in H as [H1 H2].
+    pose proof (api_nested_teardown_ps a s H1 Hs) as R1.
+    eapply teardown_rel_ps_trans; [exact R1|]. apply IH; [exact H2|].
+    destruct R1 as ([] & _). congruence.
+Qed.
+End Teardown.
+
+Lemma nested_at_teardown c d sc s : script_noreconn sc = true -> sock s = None ->
+  teardown_rel s (nested_at c d sc s).
+Proof.
+  destruct d; cbn [nested_at]; intros H Hs.
+  - split; [constructor; reflexivity|]. split; [left; reflexivity|]. exists [Fuel]. split; [reflexivity|repeat constructor].
+  - apply exec_teardown; assumption.
+Qed.
+Lemma nested_at_teardown_ps c d sc s : forallb is_pubsub sc = true -> sock s = None ->
+  teardown_rel_ps s (nested_at c d sc s).
+Proof.
+  destruct d; cbn [nested_at]; intros H Hs.
+  - split; [constructor; reflexivity|]. split; [reflexivity|]. exists [Fuel]. split; [reflexivity|repeat constructor].
+  - apply exec_teardown_ps; assumption.
+Qed.
+
+(* checker state across events a checker ignores *)
+Lemma KS_ignored {K} (kev : K -> event -> K) (ign : event -> bool) k0 s s' evs :
+  (forall k e, ign e = true -> kev k e = k) ->
+  tr s' = evs ++ tr s -> Forall (fun e => ign e = true) evs -> KS kev k0 s' = KS kev k0 s.
+Proof.
+  intros Hi Ht Hf. unfold KS. rewrite Ht. clear Ht.
+  induction Hf as [|e evs He Hf IH]; cbn [app fold_right]; [reflexivity|].
+  rewrite Hi; assumption.
 Qed.
